@@ -238,7 +238,7 @@ pub fn ref_split(text: &str) -> Option<Vec<Piece>> {
 // Corpus
 
 /// Small valid programs, together covering every production of the grammar.
-pub const SMALL_PROGRAMS: [&str; 48] = [
+pub const SMALL_PROGRAMS: [&str; 50] = [
     "let a = num;",
     "res /;",
     "let a = str; let b = a;",
@@ -285,6 +285,8 @@ pub const SMALL_PROGRAMS: [&str; 48] = [
     "let a = {\n  # description: \"d\"\n  'p! num `minimum: 0`\n};",
     "// c\nlet a = num; /* c */",
     "let r = / on get -> <>; res r;",
+    "let f x = x; let a = f\n# description: \"d\"\n[num];",
+    "let g x y = x; res / on get -> <g\n  # title: \"t\"\n  { 'p num }\n  # title: \"u\"\n  str>;",
     "let g x = x; let f y = g y; res / on get -> <f str>;",
     "let a = { 'b b }; let b = { 'a a }; let h = 'Location uri; res / on get : a -> <status=3XX, headers={ h }>;",
 ];
